@@ -264,82 +264,7 @@ def exhaustive_pairs(shard, nshards, names, depth, max_entries, pool):
                         yield t1, t2
 
 
-@st.composite
-def tree_shapes(draw, names=("a", "b", "c"), depth=3, budget=12):
-    out = {}
-
-    def fill(d, level):
-        for n in names:
-            if len(out) >= budget:
-                return
-            k = draw(st.sampled_from("--ffd" if level else "-fdd"))
-            if k == "-":
-                continue
-            p = (d + "/" + n) if d else n
-            out[p] = k
-            if k == "d" and level + 1 < depth:
-                fill(p, level + 1)
-
-    fill("", 0)
-    return out
-
-
-@st.composite
-def pairs(draw):
-    sh1 = draw(tree_shapes())
-    sh2 = draw(st.one_of(tree_shapes(), st.just(None)))
-    two = st.integers(0, 1)
-    t1 = {"": ("d", 1000, 1, 0, 0)}
-    for j, p in enumerate(sorted(sh1)):
-        t1[p] = (sh1[p], j + 1, draw(st.sampled_from([1, 1, 2])), draw(two), draw(two))
-    if sh2 is None:
-        # derive the new shape from the old one by dropping / renaming subtrees
-        sh2 = dict(sh1)
-        for _ in range(draw(st.integers(0, 3))):
-            if not sh2:
-                break
-            victim = draw(st.sampled_from(sorted(sh2)))
-            sub = {p: k for p, k in sh2.items() if p == victim or p.startswith(victim + "/")}
-            for p in sub:
-                del sh2[p]
-            if draw(st.booleans()):
-                dirs = [""] + sorted(p for p, k in sh2.items() if k == "d" and p.count("/") < 2)
-                nd = draw(st.sampled_from(dirs))
-                nn = draw(st.sampled_from(["a", "b", "c"]))
-                tgt = (nd + "/" + nn) if nd else nn
-                for p in [q for q in sh2 if q == tgt or q.startswith(tgt + "/")]:
-                    del sh2[p]
-                for p, k in sub.items():
-                    q = tgt + p[len(victim) :]
-                    if q.count("/") < 3:
-                        sh2[q] = k
-                # remember the intended identity mapping through a side table
-                draw(st.just(None))
-    # identities for the new tree
-    old_ids = {p: (v[1], v[2]) for p, v in t1.items() if p != ""}
-    free_old = dict(old_ids)
-    fresh = itertools.count(500)
-    t2 = {"": ("d", 1000, 1, draw(two), 0)}
-    used = set()
-    for p in sorted(sh2):
-        mode = draw(st.sampled_from(["same", "same", "same", "other", "fresh"]))
-        ident = None
-        if mode == "same" and p in free_old and free_old[p] not in used:
-            ident = free_old[p]
-        elif mode == "other":
-            cands = sorted(i for i in set(old_ids.values()) if i not in used)
-            if cands:
-                ident = draw(st.sampled_from(cands))
-        if ident is None or ident[0] in {u[0] for u in used}:
-            ident = (next(fresh), draw(st.sampled_from([1, 1, 2])))
-        used.add(ident)
-        if draw(st.integers(0, 3)) == 0:
-            m, s = draw(two), draw(two)
-        else:
-            src = [q for q, i in old_ids.items() if i == ident]
-            m, s = (t1[src[0]][3], t1[src[0]][4]) if src else (draw(two), draw(two))
-        t2[p] = (sh2[p], ident[0], ident[1], m, s)
-    return vfs.normalize_tree([(p, *v) for p, v in t1.items()]), vfs.normalize_tree([(p, *v) for p, v in t2.items()]), draw(st.booleans())
+from vlib.treegen import pairs  # noqa: E402
 
 
 # ----------------------------------------------------------------------------- shards
